@@ -221,6 +221,19 @@ def oracle_variant(case, rec):
             out = emd.sift.sift_second_layer(ia.copy())
             imf, extra = np.asarray(out), ia
             k = None
+            if ia.shape[1] >= 2:
+                # one caller-owned options dictionary (no cap in it) serving a wide and then a narrower amplitude set: the
+                # default cap is the width of the set at hand, whatever was decomposed before through the same dictionary
+                shared = {'imf_opts': {'sd_thresh': 0.1}}
+                emd.sift.sift_second_layer(ia.copy(), sift_args=shared)
+                narrow = ia[:, :ia.shape[1] - 1 - (case['seed'] % 2 if ia.shape[1] > 2 else 0)]
+                got = np.asarray(emd.sift.sift_second_layer(narrow.copy(), sift_args=shared))
+                fresh = np.asarray(emd.sift.sift_second_layer(narrow.copy(), sift_args={'imf_opts': {'sd_thresh': 0.1}}))
+                if got.shape != fresh.shape or not np.array_equal(got, fresh):
+                    raise Violation('C03/sift_second_layer/result-depends-on-an-earlier-call-through-the-same-options-dictionary',
+                                    'shape %r through the reused dictionary, %r through a fresh one (IA %r after IA %r)' %
+                                    (got.shape, fresh.shape, narrow.shape, ia.shape))
+                rec.cls('options dictionary reused for a narrower amplitude set')
     except Violation:
         raise
     except emd.support.EMDSiftCovergeError:
